@@ -262,9 +262,11 @@ class ReadDecoder:
             size = self.readInt31(data)
             nodeData = bytes(self.readArray(size, data))
         elif read2 in (255, 251):
-            nodeData = self.readPacked8(read2, data)
+            nodeData = bytes(bytearray(self.readPacked8(read2, data)))
         else:
             nodeData = self.readString(read2, data)
+            if nodeData is not None:
+                nodeData = nodeData.encode('latin-1')
         return ProtocolTreeNode(tag, attribs, nodeChildren, nodeData)
 
     def readList(self,token, data):
